@@ -277,6 +277,31 @@ def C19_pattern_match(pi: int, mi: int, agg: bool) -> bool:
   return bool(s.matches(metric)) == (re.search(pattern, metric) is not None)
 
 
+_FIRST_PATTERNS = ['^a\\.', '^$']      # what the section of that name said before
+
+
+def C19_same_section(cfg: int) -> bool:
+  """
+  pre: 0 <= cfg < 520
+  post: __return__
+  """
+  # what a section matches is a function of the pattern it carries NOW: a section of the same name built
+  # earlier in this process (the other config file, or the same file before it was edited and reloaded)
+  # has no influence.  History inside the function, so the counterexample replays in a fresh process.
+  import re
+  cfg = realize(cfg)
+  f, pi, mi, agg = cfg % 2, (cfg // 2) % 10, (cfg // 20) % 13, (cfg // 260) == 1
+  with NoTracing():
+    before = PatternSchema('sec', _FIRST_PATTERNS[f], ARCHIVES[0] if agg else (0.5, 'sum'))   # e.g. the other file
+    before.matches(SCHEMA_METRICS[mi])
+    edited = PatternSchema('sec', _FIRST_PATTERNS[f], (0.5, 'sum') if agg else ARCHIVES[0])
+    now = PatternSchema('sec', SCHEMA_PATTERNS[pi], (0.5, 'sum') if agg else ARCHIVES[0])
+    ok = (bool(now.matches(SCHEMA_METRICS[mi])) == (re.search(SCHEMA_PATTERNS[pi], SCHEMA_METRICS[mi]) is not None)
+          and bool(edited.matches(SCHEMA_METRICS[mi])) == (re.search(_FIRST_PATTERNS[f], SCHEMA_METRICS[mi]) is not None))
+  cover('asked')
+  return ok
+
+
 _MTIMES = [500, 2000]          # the replacement file is older (restored backup, rsync -t) or newer than the one loaded
 
 
@@ -330,6 +355,10 @@ HARNESSES = [
   H('C19_pattern_match', quick=dict(timeout=200), covers=['asked'],
     encodes=['carbon.storage:PatternSchema.__init__ / test / Schema.matches'],
     assumptions=['%d patterns (anchored, unanchored, alternations mixing both, case) x %d metric names, symbolic indices; real `re`' % (len(SCHEMA_PATTERNS), len(SCHEMA_METRICS))]),
+  H('C19_same_section', quick=dict(timeout=240, shards=[('q%d' % k, '%d <= cfg < %d' % (65 * k, 65 * k + 65)) for k in range(8)]), covers=['asked'],
+    encodes=['carbon.storage:PatternSchema.__init__ / test / Schema.matches (state across instances of one section name)'],
+    assumptions=['a section named `sec` is built with one of 2 patterns (and used), then built again with one of %d patterns, as an edited-and-reloaded file or the '
+                 'other config file would; %d metric names; both lists; one concrete combination per path (folded symbolic index, 520 combinations in 8 shards)' % (len(SCHEMA_PATTERNS), len(SCHEMA_METRICS))]),
   H('C19_writer_reload', quick=dict(timeout=200), covers=['reloaded'],
     encodes=['carbon.writer:reloadStorageSchemas / reloadAggregationSchemas', 'carbon.storage:loadStorageSchemas / loadAggregationSchemas'],
     assumptions=['the live config file of a private CONF_DIR is replaced by another permutation of three sections with an older or a newer mtime (symbolic), '
